@@ -952,6 +952,11 @@ def derefable (x : Str) : ItArg → Bool
   | .fin => false
   | .pos p => p < x.length
 
+/-- the iterator argument becomes `end()` (explicitly, or because its position is not inside the string) -/
+def actsEnd (x : Str) : ItArg → Bool
+  | .fin => true
+  | .pos p => decide (x.length ≤ p)
+
 /-- `[f, l)` is a non-empty range whose first element can be dereferenced -/
 def itRange (x : Str) (f l : ItArg) : Bool := derefable x f && itPos x f < itPos x l
 
@@ -1002,7 +1007,7 @@ def inDomain (big : Nat) (w : World) (op : Op) : Bool :=
   | .repCCSCC p _ d p2 _ | .repCCSC p _ d p2 => p ≤ n && p2 ≤ d.length
   | .repCCP p _ a | .repCCPC p _ a _ => p ≤ n && hasNul a
   | .repItItItIt f l i j => itRange x f l && itPos (T .t) i < itPos (T .t) j && derefable (T .t) i &&
-      (j != .fin || !hasNul ((T .t).drop (itPos (T .t) i)))
+      (!actsEnd (T .t) j || !hasNul ((T .t).drop (itPos (T .t) i)))
   | .repItItSIt f l d i j => itRange x f l && i < j && j ≤ d.length
   | .repItItPC f l a k => itRange x f l && 0 < k && k ≤ a.length
   | .repItItP f l a => itRange x f l && hasNul a && (StdString.ofCStr a).length > 0
